@@ -59,6 +59,10 @@ func (msg *Encrypted) Serialize(client MessageInformator, requireToAck bool) ([]
 func DeserializeEncrypted(data, authKey []byte) (*Encrypted, error) {
 	msg := new(Encrypted)
 
+	if len(data) < tl.LongLen+tl.Int128Len {
+		return nil, fmt.Errorf("message is too small: have %v bytes, want at least %v", len(data), tl.LongLen+tl.Int128Len)
+	}
+
 	buf := bytes.NewBuffer(data)
 	d, err := tl.NewDecoder(buf)
 	if err != nil {
@@ -86,7 +90,11 @@ func DeserializeEncrypted(data, authKey []byte) (*Encrypted, error) {
 	msg.SeqNo = d.PopInt()
 	messageLen := d.PopInt()
 
-	if len(decrypted) < int(messageLen)-(tl.LongLen+tl.LongLen+tl.LongLen+tl.WordLen+tl.WordLen) {
+	const headerLen = tl.LongLen + tl.LongLen + tl.LongLen + tl.WordLen + tl.WordLen
+	if len(decrypted) < headerLen {
+		return nil, fmt.Errorf("message is smaller than its header: have %v, want at least %v", len(decrypted), headerLen)
+	}
+	if messageLen < 0 || len(decrypted)-headerLen < int(messageLen) {
 		return nil, fmt.Errorf("message is smaller than it's defining: have %v, but messageLen is %v", len(decrypted), messageLen)
 	}
 
